@@ -4,8 +4,9 @@ Three independent evaluations of every generated case:
 
 * the real OpenMDAO component (`ExplicitFuncComp`, `ImplicitFuncComp`, a generated subclass of
   `JaxExplicitComponent` / `JaxImplicitComponent`) built from *source text* of a random smooth
-  function, observed through the public API (`get_val`, residuals after `run_apply_nonlinear`,
-  `check_partials()['J_fwd']`, `compute_totals` in fwd and rev mode);
+  function, observed through the public API (`get_val`; residuals after `run_apply_nonlinear`;
+  partials as `compute_totals` from IndepVarComps for explicit components and as
+  `check_partials()['J_fwd']` for implicit ones; `compute_totals` in fwd and rev mode);
 * the direct oracle: the same source text executed by plain NumPy (values) and the harness's own
   forward-mode dual-number interpreter of the expression tree (exact derivatives; independent of
   jax, of OpenMDAO and of the Lean model);
@@ -13,13 +14,9 @@ Three independent evaluations of every generated case:
   output unpacking, Jacobian assembly from jvp/vjp blocks incl. C-order reshapes, colored
   evaluation + `_expand_jac`, column reordering of the implicit component.
 """
-import itertools
 import json
 import linecache
-import math
 import os
-import subprocess
-import sys
 import warnings
 from fractions import Fraction
 
@@ -1232,77 +1229,15 @@ def msg_key(msg):
 
 
 # ================================================================================================
-# worker processes (jax is not fork-safe: the real code runs in fresh interpreters)
+# running the real code in-process (serial: on this machine concurrent jax interpreters run slower
+# than one; measured 48 cases: 1 process 21 s, 4 processes 42-60 s)
 
-def _worker_main():
-    import tempfile
-    import shutil
-    os.environ.setdefault('OPENMDAO_REPORTS', '0')
-    warnings.simplefilter('ignore')
-    d = tempfile.mkdtemp(prefix='omv_c34_')
-    os.chdir(d)
-    devnull = open(os.devnull, 'w')
-    real_out = os.fdopen(os.dup(1), 'w')
-    os.dup2(devnull.fileno(), 1)
-    os.dup2(devnull.fileno(), 2)
-    try:
-        for line in sys.stdin:
-            line = line.strip()
-            if not line:
-                continue
-            case = json.loads(line)
-            try:
-                res = run_real(case)
-            except Exception as e:     # harness-side failure, reported to the parent
-                res = {'harness_error': '%s: %s' % (type(e).__name__, str(e)[:300])}
-            real_out.write(json.dumps(res) + '\n')
-            real_out.flush()
-    finally:
-        os.chdir('/')
-        shutil.rmtree(d, ignore_errors=True)
-
-
-def run_pool(cases, nworkers):
-    """Run `run_real` on every case in `nworkers` fresh interpreters; returns results in order."""
-    if not cases:
-        return []
-    nworkers = max(1, min(nworkers, len(cases)))
-    env = dict(os.environ)
-    env.update({'OMP_NUM_THREADS': '1', 'OPENBLAS_NUM_THREADS': '1', 'MKL_NUM_THREADS': '1',
-                'XLA_FLAGS': '--xla_cpu_multi_thread_eigen=false intra_op_parallelism_threads=1',
-                'OPENMDAO_REPORTS': '0', 'JAX_PLATFORMS': 'cpu', 'PYTHONWARNINGS': 'ignore'})
-    shards = [list(range(k, len(cases), nworkers)) for k in range(nworkers)]
-    procs = []
-    for sh in shards:
-        data = ''.join(json.dumps(cases[i]) + '\n' for i in sh)
-        p = subprocess.Popen([sys.executable, os.path.abspath(__file__), '--worker'], env=env,
-                             stdin=subprocess.PIPE, stdout=subprocess.PIPE,
-                             stderr=subprocess.DEVNULL, text=True,
-                             cwd=os.path.dirname(os.path.abspath(__file__)))
-        procs.append((p, sh, data))
-    import threading
-    outs = [None] * len(procs)
-
-    def feed(k):
-        p, sh, data = procs[k]
-        outs[k] = p.communicate(data)[0]
-    threads = [threading.Thread(target=feed, args=(k,)) for k in range(len(procs))]
-    for t in threads:
-        t.start()
-    for t in threads:
-        t.join()
-    results = [None] * len(cases)
-    for k, (p, sh, data) in enumerate(procs):
-        lines = [l for l in (outs[k] or '').split('\n') if l.strip()]
-        if p.returncode != 0 or len(lines) != len(sh):
-            raise Infra('C34 worker %d: rc=%s, %d results for %d cases' % (k, p.returncode, len(lines),
-                                                                         len(sh)))
-        for i, l in zip(sh, lines):
-            r = json.loads(l)
-            if 'harness_error' in r:
-                raise Infra('C34 worker: %s' % r['harness_error'])
-            results[i] = r
-    return results
+def run_quiet(case):
+    import contextlib
+    with open(os.devnull, 'w') as dn, contextlib.redirect_stdout(dn), contextlib.redirect_stderr(dn), \
+            warnings.catch_warnings():
+        warnings.simplefilter('ignore')
+        return run_real(case)
 
 
 # ================================================================================================
@@ -1313,11 +1248,11 @@ KINDS = ['efc'] * 9 + ['ifc'] * 6 + ['jec'] * 3 + ['jic'] * 2
 class C34(Property):
     pid = 'C34'
     level = 'partial'
-    workers = 1              # parallelism is done with fresh interpreters (run_pool)
+    workers = 1
     tolerance = TOL
     required_theorems = [
         'C34_outputs', 'C34_binding_inputs', 'C34_implicit_residual', 'C34_implicit_residual_partial',
-        'C34_implicit_residual_needs_order', 'C34_c_order', 'C34_partials_exact', 'C34_partials_sparse',
+        'C34_implicit_residual_needs_order', 'C34_c_order', 'C34_partials_exact', 'C34_single_return_rows', 'C34_partials_sparse',
         'C34_derivs2partials', 'C34_colored_expand', 'C34_colored_expand_checked',
         'C34_implicit_partials', 'C34_ad_contract_expr', 'C34_partials_exact_expr']
     rule = ("cases: a random smooth function written as Python source text (exec'd; body from + - * / "
@@ -1427,7 +1362,7 @@ class C34(Property):
         return None
 
     def cases(self, rng, tier):
-        n = 60 if tier == 'quick' else 2400
+        n = 100 if tier == 'quick' else 2200
         out = []
         forced = [
             ('ifc', {'permute_states': True}),
@@ -1440,7 +1375,7 @@ class C34(Property):
                      'permute_states': False}),
             ('ifc', {'opts': {'method': 'jax', 'coloring': True}, 'permute_states': False}),
         ]
-        reps = 1 if tier == 'quick' else 25
+        reps = 1 if tier == 'quick' else 12
         for _ in range(reps):
             for kind, force in forced:
                 c = self.draw(rng, kind, tier, force)
@@ -1450,12 +1385,6 @@ class C34(Property):
             c = self.draw(rng, rng.choice(KINDS), tier)
             if c is not None:
                 out.append(c)
-        # the real code runs in fresh interpreters, in parallel; run_impl then reads the cache
-        todo = [c for c in [self.PROBE] + out if canon(c) not in self._cache]
-        nw = min(8, os.cpu_count() or 1)
-        for c, r in zip(todo, run_pool(todo, nw)):
-            self._cache[canon(c)] = r
-        self._ensure_flags()
         return out
 
     def run_impl(self, case):
@@ -1463,7 +1392,7 @@ class C34(Property):
             self._cache = {}
         k = canon(case)
         if k not in self._cache:
-            self._cache[k] = run_pool([case], 1)[0]
+            self._cache[k] = json.loads(json.dumps(run_quiet(case)))
         return self._cache[k]
 
     # -- direct oracle -----------------------------------------------------------------------------
@@ -1520,6 +1449,9 @@ class C34(Property):
                 b.append('coloring_active' if col else 'coloring_deactivated')
         mf = model_func(case)
         b.append('lean_modelled' if mf is not None else 'oracle_only')
+        if mf is not None and 'error' not in impl:
+            jaxlike = (case['kind'] in ('jec', 'jic') and not o.get('mf')) or o.get('method') == 'jax'
+            b.append('model_compared=values+jacobian' if jaxlike else 'model_compared=values')
         if mf is not None:
             temps = {n: t for n, t in case['temps']}
             b.append('carrier=rat' if all(is_rational(substitute(r['expr'], temps))
@@ -1552,7 +1484,9 @@ class C34(Property):
         elif col:
             return reqs      # coloring of the other direction only: outside the model
         reqs.append({'op': 'comp', 'kind': case['kind'], 'args': jargs, 'rets': jrets, 'vals': vals,
-                     'byName': bool(self.flags['byName']), 'dir': d, 'coloring': coloring})
+                     'byName': bool(self.flags['byName']), 'dir': d, 'coloring': coloring,
+                     # one return value is returned bare (`return r0`), not as a 1-tuple
+                     'single': len(case['rets']) == 1})
         return reqs
 
     def compare(self, case, impl, answers):
@@ -1628,7 +1562,3 @@ class C34(Property):
 
 
 PROP = C34()
-
-if __name__ == '__main__' and '--worker' in sys.argv:
-    sys.path.insert(0, os.path.dirname(os.path.abspath(__file__)))
-    _worker_main()
